@@ -135,11 +135,25 @@ def dense(op, dom, n, mode="times"):
 import sympy as sp  # noqa: E402
 
 
+def _float_literal(f):
+    """mathematical reading of a float that reaches a symbolic expression (assumption 'machine arithmetic treated as
+    mathematical'): the nearby simple rational, or -- for a float that is the correctly rounded square root of a rational with
+    denominator <= 1000, such as np.sqrt(0.5) -- that square root"""
+    import math
+    r = sp.nsimplify(f, rational=True)
+    if r.q <= 10 ** 6 or f != f or f in (float("inf"), float("-inf")):
+        return r
+    q = sp.nsimplify(f * f, rational=True, tolerance=1e-14)
+    if q.q <= 1000 and q > 0 and math.copysign(math.sqrt(q.p / q.q), f) == f:
+        return sp.sign(r) * sp.sqrt(q)
+    return r
+
+
 def _U(x):
     if isinstance(x, SX):
         return x.e
     if isinstance(x, (float, np.floating)):
-        return sp.nsimplify(float(x), rational=True)
+        return _float_literal(float(x))
     if isinstance(x, (complex, np.complexfloating)):
         return sp.nsimplify(complex(x).real, rational=True) + sp.I * sp.nsimplify(complex(x).imag, rational=True)
     return sp.sympify(x)
